@@ -5,7 +5,7 @@ C.6.4 Verbatim
 
 from plasTeX import VerbatimEnvironment, Command, sourceArguments, sourceChildren
 from plasTeX.Base.TeX.Text import bgroup
-from plasTeX.Tokenizer import Other
+from plasTeX.Tokenizer import Other, Token
 
 class verbatim(VerbatimEnvironment):
     pass
@@ -32,10 +32,15 @@ class verb(Command):
         self.parse(tex)
         self.ownerDocument.context.setVerbatimCatcodes()
         # See what the delimiter is
-        for endpattern in tex:
+        # (the delimiter has already been tokenized with the category codes
+        # in force before \verb; it is taken unexpanded, and compared as the
+        # plain character its closing occurrence will be read as)
+        for endpattern in tex.itertokens():
+            if endpattern.catcode == Token.CC_BGROUP:
+                endpattern = Other('}')
+            elif endpattern.catcode != Token.CC_OTHER:
+                endpattern = Other(str(endpattern).split('::').pop())
             self.delimiter = endpattern
-            if isinstance(endpattern, bgroup):
-                self.delimiter = endpattern = Other('}')
             break
         tokens = [self, endpattern]
         # Parse until this delimiter is seen again
